@@ -263,7 +263,7 @@ Definition inserted (b b' : book) (now : Z) (c : Z * Z * K * K) : Prop :=
   exists i, (i < MaxPromises)%nat /\ core (getp b' i) = c /\
     (forall m, (m < i)%nat -> core (getp b' m) = core (getp b m)) /\
     (forall m, (i <= m)%nat -> (S m < MaxPromises)%nat -> core (getp b' (S m)) = core (getp b m)) /\
-    (p_ts (getp b (MaxPromises - 1)) <> 0 -> p_te (getp b (MaxPromises - 1)) < now).
+    (p_ts (getp b (MaxPromises - 1)) <> 0 -> p_te (getp b (MaxPromises - 1)) < now /\ p_clear (getp b (MaxPromises - 1)) < now).
 
 Theorem propose_spec mx (b : book) ts te d tr now (pr : predictor) pp :
   1 <= mx -> 0 <= now -> te < tmax -> Inv mx b ->
@@ -275,7 +275,7 @@ Proof.
   destruct (kleb N d (k0 N)); [discriminate|].
   destruct (Z.ltb_spec ts now) as [|Hnow]; [discriminate|].
   destruct (Z.eqb_spec ts 0) as [|Hts0]; [discriminate|].
-  destruct ((now <=? p_te (getp b (MaxPromises - 1))) && (0 <? p_ts (getp b (MaxPromises - 1)))) eqn:Hroom; [discriminate|].
+  destruct (((now <=? p_te (getp b (MaxPromises - 1))) || (now <=? p_clear (getp b (MaxPromises - 1)))) && (0 <? p_ts (getp b (MaxPromises - 1)))) eqn:Hroom; [discriminate|].
   set (clr := match pr_predict pr d _ with Some c => c | None => _ end).
   set (p := {| p_ts := ts; p_te := te; p_dist := d; p_trav := tr; p_clear := days_to_time clr; p_stack := 0; p_carried := k0 N; p_bf := false |}).
   set (f := fun i0 : nat => p_ts (getp b i0) <=? ts).
@@ -362,7 +362,8 @@ Proof.
     + intros m Hm1 Hm2. rewrite Hcore, (G (S m) Hm2).
       destruct (Nat.ltb_spec (S m) i); [lia|]. destruct (Nat.eqb_spec (S m) i); [lia|].
       replace (S m - 1)%nat with m by lia. reflexivity.
-    + intros Hne. apply andb_false_iff in Hroom. destruct Hroom as [H|H]; [apply Z.leb_gt in H; exact H|].
+    + intros Hne. apply andb_false_iff in Hroom. destruct Hroom as [H|H];
+        [apply orb_false_iff in H; destruct H as [Hr1 Hr2]; apply Z.leb_gt in Hr1; apply Z.leb_gt in Hr2; split; assumption|].
       apply Z.ltb_ge in H. destruct (Hwf (MaxPromises - 1)%nat ltac:(unfold MaxPromises; lia)) as [[W _] _]. lia.
 Qed.
 
@@ -391,7 +392,7 @@ Proof.
   intros H1 H2. unfold propose. destruct (te <=? ts); [eexists; reflexivity|].
   destruct (kleb N d (k0 N)); [eexists; reflexivity|]. destruct (ts <? now); [eexists; reflexivity|].
   destruct (ts =? 0); [eexists; reflexivity|].
-  destruct (Z.leb_spec now (p_te (getp b (MaxPromises - 1)))); [|lia].
+  destruct (Z.leb_spec now (p_te (getp b (MaxPromises - 1)))); [|lia]. cbn [orb].
   destruct (Z.ltb_spec 0 (p_ts (getp b (MaxPromises - 1)))); [|lia]. eexists; reflexivity.
 Qed.
 
